@@ -31,6 +31,8 @@ PROP = {
         "a Switch selector is always a leaf (the reason message a composite hands up is undocumented); Dummy leaves are told to finish/block only while running",
         "left free: pass counts between cause and effect, start order across Parallel branches, what a paused composite does in 'resume; pause' within one pass, "
         "what resume() does to leaves that blocked on their own, return values of control calls, Sleep timing (real-clock remainder)",
+        "timeouts: the reference for setTimeout()/resetTimeout() at arbitrary moments is what action.cpp defines: armed by start()/resume() and by setTimeout() on a running action, "
+        "off during pause() and after finish/stop/reset, setTimeout() on a non-running action only takes effect at the next start()/resume(), block() leaves the timer alone, no remainder is kept across a pause",
         "final hooks are not demanded for runs ended by reset() of a tree that was still under way; the functional reference is skipped for runs in which a timeout fired "
         "or which re-run a Parallel that its mode trigger may cut short",
     ],
